@@ -8,26 +8,30 @@ import (
 
 // GenOpts steers the grammar generator (DESIGN.md 3.1).
 type GenOpts struct {
-	MaxNT      int
-	MaxDepth   int
-	Alphabet   string
-	NonMono    bool // Choice / Many / SepBy / SeqTry / SeqFirstOrAll
-	ExtraMemo  int  // 0: never; n: one node in n gets an extra Memoize wrapper
-	Names      bool
-	MaxInput   int
-	NoRefs     bool
-	Trims      bool
-	RefTrims   bool  // trimming the reference semantics can follow: restricted operands (see genRefTrim)
-	Skeleton   bool  // recursion skeleton first (direct / hidden / indirect ring)
-	LRFree     bool  // repair left recursion away (C03)
-	Share      bool  // bias towards several references to one rule at one position (cache hits)
-	SkWeights  []int // when set, the skeleton kind is sampled from this list
-	Suppress   bool  // combinator.SuppressError wrappers
-	MemoLeaves bool  // Memoize wrappers also around terminals and references ("any sub-parser")
-	Single     bool  // combinator.Single wrappers (C07 only: it changes tree shapes)
-	SeqOpts    bool  // .HandleResult(ReturnSingle()) and .Token(...) on sequence-like nodes
-	RuleNames  bool  // some rules are Memoize(body).Name(...): the name wrapper sits outside the memoization
-	NearMiss   bool  // prefer sentences of the grammar with one byte changed / inserted / deleted / appended
+	MaxNT     int
+	MaxDepth  int
+	Alphabet  string
+	NonMono   bool // Choice / Many / SepBy / SeqTry / SeqFirstOrAll
+	ExtraMemo int  // 0: never; n: one node in n gets an extra Memoize wrapper
+	Names     bool
+	MaxInput  int
+	NoRefs    bool
+	Trims     bool
+	// Unstratified: references to any rule anywhere, also where a combinator asks "does the next
+	// element fail here?": such a grammar has no least-fixpoint meaning, so only checks that need
+	// none use it
+	Unstratified bool
+	RefTrims     bool  // trimming the reference semantics can follow: restricted operands (see genRefTrim)
+	Skeleton     bool  // recursion skeleton first (direct / hidden / indirect ring)
+	LRFree       bool  // repair left recursion away (C03)
+	Share        bool  // bias towards several references to one rule at one position (cache hits)
+	SkWeights    []int // when set, the skeleton kind is sampled from this list
+	Suppress     bool  // combinator.SuppressError wrappers
+	MemoLeaves   bool  // Memoize wrappers also around terminals and references ("any sub-parser")
+	Single       bool  // combinator.Single wrappers (C07 only: it changes tree shapes)
+	SeqOpts      bool  // .HandleResult(ReturnSingle()) and .Token(...) on sequence-like nodes
+	RuleNames    bool  // some rules are Memoize(body).Name(...): the name wrapper sits outside the memoization
+	NearMiss     bool  // prefer sentences of the grammar with one byte changed / inserted / deleted / appended
 }
 
 // fixRepetitions makes every repetition operand consume input (C02's precondition): a
@@ -156,7 +160,7 @@ func GenGrammar(t *rapid.T, o GenOpts) *Grammar {
 		var refs []int
 		if !o.NoRefs {
 			for j := 0; j < n; j++ {
-				if g.Layer[j] < g.Layer[nt] || (!neg && g.Layer[j] == g.Layer[nt]) {
+				if o.Unstratified || g.Layer[j] < g.Layer[nt] || (!neg && g.Layer[j] == g.Layer[nt]) {
 					refs = append(refs, j)
 				}
 			}
